@@ -1,4 +1,5 @@
 """C02 -- write/read round trip and cross-format conversion preserve the database."""
+import io
 import itertools
 import os
 import pickle
@@ -26,21 +27,37 @@ THEOREMS = {
     'C02_xml_logic': 'bibtexml: load(dump(t)) = t  =>  process_entry(_write(d)) = d on WFDbTree false (field order, roles in any letter case, person elements with five name parts); the format carries no preamble',
     'C02_chain': 'chains: for ANY list of formats with the database in the domain of each, write / convert / ... / read ends with the same entries; the preamble comes back as one string and is lost exactly when BibTeXML is on the way',
     'C02_lower': 'lower-casing: with preserve_case=False and at least one conversion the chain ends with lowerSpec d (keys, entry types, field names, role names lower-cased, everything else and every order untouched)',
-    'C02_lower_only_case': 'lower-casing: BibliographyData.lower() = lowerSpec (nothing reported) on identifiers distinct up to case; lowerSpec keeps values, persons, orders and preamble and only lower-cases keys / types / field names / role names; the domains are closed under it',
+    'C02_lower_only_case': 'lower-casing: BibliographyData.lower() = lowerSpec (nothing reported) on identifiers distinct up to case; lowerSpec keeps values, persons, orders and preamble and only lower-cases (str.lower(): the regenerated Unicode table, not ASCII) keys / types / field names / role names; the domains are closed under it',
+    'C02_name_tests_unicode': 'identifiers beyond ASCII: name.lower() in Person.valid_roles and name.lower() == "type" give the same answer with str.lower() and with the ASCII lower-casing of the models for EVERY string (only U+212A has an ASCII lower-case form, k); lower-casing is idempotent, never yields an ASCII capital and stays in its domain',
+    'C02_quantifier_partial': 'the stated quantifier: a database of its domain WFDbQ (values balanced [white-space-normalised for BibTeX], persons Person(name) can produce, identifiers the format can spell, no duplicates) that has only author / editor roles with at least one person, no field called type (YAML) and none of # % & _ ~ (BibTeX) lies in the claimed domain and is read back as written',
+    'C02_quantifier_exact': 'the claimed domain of each format is EXACTLY the stated quantifier minus the four recorded restrictions (iff): nothing else is excluded silently',
+    'C02_other_role_neg': 'finding C02-role-not-author-editor (kernel-evaluated counterexample inside the quantifier): a person under the role translator comes back as a text field translator in all three formats (BibTeX: the name; YAML: str() of the list of dictionaries; BibTeXML: the indentation), persons lost',
+    'C02_empty_role_neg': 'finding C02-empty-role (counterexample): persons["author"] = [] is gone after a round trip through any format',
+    'C02_yaml_type_neg': 'finding C02-yaml-type-field (counterexample): through YAML the value of a field "type" becomes the entry type and the field is gone, a field "Type" is dropped; BibTeX and BibTeXML carry it',
+    'C02_five_neg': 'finding C02-five-characters (counterexample): with the encoder that re-escapes # % & _ ~ the value R&D 100% a_b #1 x~y is written and read back escaped; with the identity encoder it comes back unchanged',
+    'C02_repr_logic': 'repr / eval: evaluating the constructor calls Entry.__repr__ (type as written, field pairs, Person(str(p)) per role) and BibliographyData.__repr__ (key / entry pairs, preamble list) print gives the database back - any role names, empty roles, the preamble list unjoined - when identifiers are distinct up to case and persons are WFPerson; nothing reported',
+    'C02_serial_witness': 'non-vacuity of the serialiser hypotheses: a concrete lossless Serial (identity encoder, prefix-code printers for value trees and element trees, load(dump t) = t proved for EVERY tree) exists; C02_chain and C02_lower instantiated with it hold without hypotheses on the example database',
 }
 RULE = ('databases as JSON (entries with key, type as written, ordered fields, ordered roles with persons as five token lists, preamble list) '
         'built through the public constructors; ES: every person Person(name) yields for the token shapes of C04 (<=3 tokens x comma placements) '
         'plus small databases (1 entry x field names x the value alphabet with braces, quotes, backslash, @ , = digits; all ordered value pairs; '
         'person pairs per role spelling; ordered key pairs x preambles) x {bibtex, yaml, bibtexml} x chains <=3 x preserve_case; R: databases read '
-        'by the real reader from bibgen documents, databases built directly from Entry/Person objects (every 10th through convert() on real files), '
-        'an outside-domain stream (# % & _ ~, non-normalised white space, unbalanced braces, field "type", empty roles: correspondence only), '
-        'reader-only YAML/XML trees (non-string scalars, every person element form); pickle and eval(repr()) executed for real (oracle only); '
+        'by the real reader from bibgen documents; databases built directly from Entry/Person objects, the transport rotating over to_string/parse_string, '
+        'convert() on real files, to_bytes/parse_bytes (UTF-8, latin-1, UTF-16, cp1252, ascii when every string fits), to_file/parse_file on named '
+        'file objects (format guessed from the name) and on StringIO/BytesIO; the four recorded findings with the ORACLE ON (roles translator / bookauthor / ..., '
+        'empty roles, a field type/Type/TYPE, values / names / preambles with # % & _ ~); values only YAML / BibTeXML carry (leading / trailing / double / '
+        'line-breaking white space, YAML-significant spellings) through chains of these two; databases of 5-10 entries with values of 100-400 characters and up to '
+        '8 persons per role; non-ASCII identifiers (keys, types, field names: Ä ß ǅ Ж ẞ ...) through YAML / BibTeXML chains and lower(); an outside-domain stream '
+        '(non-normalised white space, unbalanced braces, fields named like roles: correspondence only); reader-only YAML/XML trees (non-string scalars, every '
+        'person element form); pickle and eval(repr()) executed for real, the entry type as written included (oracle only); '
         'non-trivial = a database with a field or person / a person with >1 token; distinct by case JSON')
 TRUSTED = ['PyYAML (yaml.dump / yaml.load with the ordered dumper/loader), xml.sax XMLGenerator + ElementTree, latexcodec, pickle: parameters of the '
            'model with the hypotheses load(dump t) = t resp. encode = id on strings free of # % & _ ~; exercised for real on every case, not proved',
            'the harness keeps databases PyYAML / XML cannot represent out of the claimed domain (U+0085; XML names for identifiers, XML characters)']
-ASSUMPTIONS = ['no non-ASCII letters in identifiers (str.lower is ASCII in the model)',
-               'the check is meant for a tree with proposed_fixes/C02-1, C02-2, C02-3 applied; on the unpatched tree it reports those three defects']
+ASSUMPTIONS = ['identifiers contain neither U+0130 (its lower-case form is two characters) nor U+03A3 (final-sigma rule): elsewhere the model lower-cases them as str.lower() does (table regenerated from the interpreter; explicit predicate lowerDomain in WFDbTree)',
+               'BibTeXML identifiers are XML names expat accepts (ASCII and Latin-1 letters are generated); after a YAML step has put the value of a field called type in the place of the entry type (finding C02-yaml-type-field) later formats are only checked when that value is alphanumeric',
+               'to_bytes / parse_bytes: an encoding every string of the database can be encoded in (the BibTeX writer LaTeX-escapes what the encoding cannot hold)',
+               'the check is meant for a tree with proposed_fixes/C02-1 ... C02-4 applied; on a tree without C02-4 it reports eval(repr(db)) losing the entry type as written']
 
 FORMATS = ('bibtex', 'yaml', 'bibtexml')
 PARTS = ('first', 'middle', 'prelast', 'last', 'lineage')
@@ -150,6 +167,76 @@ def _chain_files(db, chain, preserve):
         shutil.rmtree(tmp, True)
 
 
+def _chain_bytes(db, chain, preserve, encoding):
+    """The chain through to_bytes() / parse_bytes() with an explicit encoding."""
+    from pybtex import errors
+    from pybtex.database import parse_bytes
+    reports = []
+    for i, f in enumerate(chain):
+        if i > 0 and not preserve:
+            db = db.lower()
+        data = db.to_bytes(f, encoding=encoding)
+        if not isinstance(data, bytes):
+            raise TypeError('to_bytes returned %s' % type(data).__name__)
+        with errors.capture() as captured:
+            db = parse_bytes(data, f, encoding=encoding)
+        reports.append(canon_reports(captured))
+    return db, reports
+
+
+_BINARY = {'bibtex': False, 'yaml': False, 'bibtexml': True}
+
+
+def _chain_fileobj(db, chain, preserve):
+    """The chain through to_file(file object) / parse_file(file object): real named files opened by the caller, the format
+    guessed from the name of the file object."""
+    from pybtex import errors
+    from pybtex.database import parse_file
+    tmp = tempfile.mkdtemp(prefix='verif-c02-')
+    try:
+        reports = []
+        for i, f in enumerate(chain):
+            if i > 0 and not preserve:
+                db = db.lower()
+            path = os.path.join(tmp, 'g%d%s' % (i, _SUFFIX[f]))
+            fo = open(path, 'wb') if _BINARY[f] else open(path, 'w', encoding='UTF-8')
+            try:
+                db.to_file(fo)
+            finally:
+                fo.close()
+            fo = open(path, 'rb') if _BINARY[f] else open(path, 'r', encoding='UTF-8')
+            try:
+                with errors.capture() as captured:
+                    db = parse_file(fo)
+            finally:
+                fo.close()
+            reports.append(canon_reports(captured))
+        return db, reports
+    finally:
+        shutil.rmtree(tmp, True)
+
+
+def _chain_memfile(db, chain, preserve):
+    """to_file(StringIO / BytesIO, format) returns the text; parse_file(StringIO / BytesIO, format) reads it."""
+    from pybtex import errors
+    from pybtex.database import parse_file
+    reports = []
+    for i, f in enumerate(chain):
+        if i > 0 and not preserve:
+            db = db.lower()
+        data = db.to_file(io.BytesIO() if _BINARY[f] else io.StringIO(), f)
+        with errors.capture() as captured:
+            db = parse_file(io.BytesIO(data) if _BINARY[f] else io.StringIO(data), f)
+        reports.append(canon_reports(captured))
+    return db, reports
+
+
+def _transport(case):
+    if case.get('via_files'):
+        return 'files'
+    return case.get('transport', 'string')
+
+
 def _eval_repr(db):
     from pybtex.database import BibliographyData, Entry, Person
     from pybtex.utils import OrderedCaseInsensitiveDict
@@ -166,8 +253,12 @@ def impl(case):
             db = build_db(case['db'])
             if not case['chain']:
                 return {'db': canon_db(db), 'reports': []}
-            run = _chain_files if case.get('via_files') else _chain_strings
-            out, reports = run(db, case['chain'], case['preserve_case'])
+            tr = _transport(case)
+            if tr == 'bytes':
+                out, reports = _chain_bytes(db, case['chain'], case['preserve_case'], case.get('encoding', 'UTF-8'))
+            else:
+                run = {'string': _chain_strings, 'files': _chain_files, 'fileobj': _chain_fileobj, 'memfile': _chain_memfile}[tr]
+                out, reports = run(db, case['chain'], case['preserve_case'])
             return {'db': canon_db(out), 'reports': reports}
         if op == 'bibwrite':
             return {'text': build_db(case['db']).to_string('bibtex')}
@@ -190,6 +281,8 @@ def impl(case):
             except Exception as e:  # noqa
                 extra['repr'] = {'error': compat.pybtex_error_kind(e), 'msg': str(e)[:120]}
             r['extra'] = extra
+            # compared with the model of the two __repr__ / eval (constructor calls)
+            r['repr'] = {'error': extra['repr']['error']} if 'error' in extra['repr'] else extra['repr']
             return r
         if op == 'personfmt':
             from pybtex.database.output.bibtex import Writer
@@ -288,7 +381,9 @@ def model_out(case, reply):
 # ----------------------------------------------------------------------------------------------
 # the assumed serialisers: what the harness keeps out of the claimed domain
 
-XML_NAME = re.compile(r'^[A-Za-z_][A-Za-z0-9._-]*$')
+# XML names as expat accepts them (XML 1.0 4th edition): ASCII plus the Latin-1 letters (what the generators use); other
+# non-ASCII identifiers are kept away from BibTeXML
+XML_NAME = re.compile('^[A-Za-z_\xc0-\xd6\xd8-\xf6\xf8-\xff][A-Za-z0-9._\xc0-\xd6\xd8-\xf6\xf8-\xff-]*$')
 
 
 def _xml_chars(s, attr=False):
@@ -347,7 +442,7 @@ def _want_after(case, spec):
     j = case['db']
     chain = case['chain']
     src = spec['lowered'] if (not case['preserve_case'] and len(chain) >= 2) else j
-    entries = [{'key': e['key'], 'type': e['orig_type'].lower(), 'orig_type': e['orig_type'],
+    entries = [{'key': e['key'], 'type': _lower_py(e['orig_type']), 'orig_type': e['orig_type'],
                 'fields': e['fields'], 'persons': e['persons']} for e in src['entries']]
     pre = ''.join(j['preamble'])
     preamble = [] if ('bibtexml' in chain or not pre or not chain) else [pre]
@@ -356,16 +451,61 @@ def _want_after(case, spec):
     return {'entries': entries, 'preamble': preamble}
 
 
+def _lower_py(s):
+    """str.lower() character by character (= lowerU of the model on its domain: no U+0130, no U+03A3)"""
+    return ''.join(c.lower() for c in s)
+
+
+def _lowered_py(j):
+    """lowerSpec in Python (used by the finding matchers only, which do not see the driver's reply)"""
+    return {'entries': [{'key': _lower_py(e['key']), 'orig_type': _lower_py(e['orig_type']),
+                         'fields': [[_lower_py(k), v] for k, v in e['fields']],
+                         'persons': [[_lower_py(r), ps] for r, ps in e['persons']]} for e in j['entries']],
+            'preamble': j['preamble']}
+
+
 def in_domain(case, spec):
+    """The stated quantifier (WFDbQ of Spec/BibWrite.lean, evaluated by the driver) for every format of the chain, minus what
+    the assumed serialisers cannot carry.  This is wider than the claimed domain inDomain (keys wf_*): the difference is the
+    four recorded findings, whose failures the matchers below recognise."""
     j = case['db']
     for f in case['chain']:
-        if f == 'bibtex' and not spec['wf_bibtex']:
+        if f == 'bibtex' and not spec['q_bibtex']:
             return False
-        if f == 'yaml' and not (spec['wf_yaml'] and yaml_lossless(j)):
+        if f == 'yaml' and not (spec['q_yaml'] and yaml_lossless(j)):
             return False
-        if f == 'bibtexml' and not (spec['wf_xml'] and xml_representable(j)):
+        if f == 'bibtexml' and not (spec['q_xml'] and xml_representable(j)):
             return False
+    tr = _transport(case)
+    if tr == 'bytes' and not _encodable(j, case.get('encoding', 'UTF-8')):
+        return False
+    # finding C02-yaml-type-field puts the value of a field called type in the place of the entry type: formats that follow
+    # the YAML step are only checked when that value can be an entry type at all (see ASSUMPTIONS)
+    if 'yaml' in case['chain'] and case['chain'].index('yaml') < len(case['chain']) - 1:
+        for e in j['entries']:
+            for k, v in e['fields']:
+                if _lower_py(k) == 'type' and not PLAIN_IDENT.match(v):
+                    return False
     return True
+
+
+PLAIN_IDENT = re.compile(r'^[A-Za-z][A-Za-z0-9]*$')
+
+
+def _encodable(j, encoding):
+    try:
+        for s in _strings(j):
+            s.encode(encoding)
+        return True
+    except UnicodeError:
+        return False
+
+
+def _convert_tag(case):
+    label = 'chain' if len(case['chain']) > 1 else 'roundtrip'
+    if not case['preserve_case'] and len(case['chain']) > 1:
+        label = 'lower'
+    return '%s[%s]' % (label, '>'.join(case['chain']))
 
 
 def oracle(case, io, reply):
@@ -375,10 +515,7 @@ def oracle(case, io, reply):
     if op == 'convert':
         if not in_domain(case, spec):
             return fails
-        label = 'chain' if len(case['chain']) > 1 else 'roundtrip'
-        if not case['preserve_case'] and len(case['chain']) > 1:
-            label = 'lower'
-        tag = '%s[%s]' % (label, '>'.join(case['chain']))
+        tag = _convert_tag(case)
         if 'error' in io:
             return ['%s: raised %s on an in-domain database' % (tag, io['error'])]
         want = _want_after(case, spec)
@@ -386,10 +523,10 @@ def oracle(case, io, reply):
         if [e['key'] for e in got['entries']] != [e['key'] for e in want['entries']]:
             fails.append('%s: keys %r, expected %r' % (tag, [e['key'] for e in got['entries']], [e['key'] for e in want['entries']]))
         else:
-            for g, w in zip(got['entries'], want['entries']):
+            for i, (g, w) in enumerate(zip(got['entries'], want['entries'])):
                 for part in ('orig_type', 'type', 'fields', 'persons'):
                     if g[part] != w[part]:
-                        fails.append('%s: entry %r %s = %r, expected %r' % (tag, g['key'], part, g[part], w[part]))
+                        fails.append('%s: entry #%d %r %s = %r, expected %r' % (tag, i, g['key'], part, g[part], w[part]))
                         break
         if got['preamble'] != want['preamble']:
             fails.append('%s: preamble %r, expected %r' % (tag, got['preamble'], want['preamble']))
@@ -399,7 +536,7 @@ def oracle(case, io, reply):
                 break
         return fails
     if op == 'bibwrite':
-        if spec.get('wf_bibtex') and 'error' in io:
+        if spec.get('q_bibtex') and 'error' in io:
             fails.append('roundtrip[bibtex]: the writer raised %s on an in-domain database' % io['error'])
         return fails
     if op == 'personfmt':
@@ -419,7 +556,7 @@ def oracle(case, io, reply):
             return ['lower: lower() raised %s' % io['error']]
         j = case['db']
         want = spec['lowered']
-        if spec.get('ci_distinct'):
+        if spec.get('ci_distinct') and spec.get('lower_domain'):
             if io['db'] != want or io['repeated']:
                 fails.append('lower: lower() = %r (reported %r), expected identifiers lower-cased only: %r' % (io['db'], io['repeated'], want))
         ex = io['extra']
@@ -430,11 +567,9 @@ def oracle(case, io, reply):
             r = ex['repr']
             if 'error' in r:
                 fails.append('repr: eval(repr(db)) raised %s (%s)' % (r['error'], r.get('msg')))
-            else:
-                # Entry.__repr__ shows the (lower-cased) type only; everything else must come back
-                norm = {'entries': [dict(e, orig_type=e['type']) for e in me['entries']], 'preamble': me['preamble']}
-                if r != norm or not ex.get('repr_eq'):
-                    fails.append('repr: eval(repr(db)) = %r, expected %r' % (r, norm))
+            elif r != me or not ex.get('repr_eq'):
+                # "the same entry types": the type as written counts (repair C02-4: Entry.__repr__ shows original_type)
+                fails.append('repr: eval(repr(db)) = %r, expected %r' % (r, me))
         return fails
     if op == 'yamlread':
         if 'error' in io:
@@ -450,13 +585,134 @@ def oracle(case, io, reply):
     return fails
 
 
+# ----------------------------------------------------------------------------------------------
+# recorded findings: failures of the round trip inside the stated quantifier that have no small safe repair
+
+VALID_ROLES = ('author', 'editor')
+FIVE = '#%&_~'
+_ENTRY_FAIL = re.compile(r'^(roundtrip|chain|lower)\[([a-z>]+)\]: entry #(\d+) ')
+
+
+def _want_py(case):
+    """What the round trip should give, computed from the case alone."""
+    j = case['db']
+    chain = case['chain']
+    src = _lowered_py(j) if (not case['preserve_case'] and len(chain) >= 2) else j
+    return [{'key': e['key'], 'type': _lower_py(e['orig_type']), 'orig_type': e['orig_type'],
+             'fields': [list(f) for f in e['fields']], 'persons': e['persons']} for e in src['entries']]
+
+
+def _failing_entry(case, io, text):
+    """(got entry, wanted entry) of the entry a failure text speaks about, None when it is no entry failure of this case"""
+    m = _ENTRY_FAIL.match(text)
+    if not m or case.get('op') != 'convert' or not isinstance(io, dict) or 'db' not in io:
+        return None
+    if m.group(2) != '>'.join(case['chain']):
+        return None
+    i = int(m.group(3))
+    want = _want_py(case)
+    got = io['db']['entries']
+    if i >= len(want) or i >= len(got) or got[i]['key'] != want[i]['key']:
+        return None
+    return got[i], want[i]
+
+
+def _features(case, w):
+    """which recorded findings apply to the wanted entry w under the chain of the case"""
+    chain = case['chain']
+    return {
+        'other': [_lower_py(r) for r, _ps in w['persons'] if _lower_py(r) not in VALID_ROLES],
+        'empty': [_lower_py(r) for r, ps in w['persons'] if _lower_py(r) in VALID_ROLES and not ps],
+        'ytype': [v for k, v in w['fields'] if _lower_py(k) == 'type'] if 'yaml' in chain else [],
+        'five': 'bibtex' in chain and (any(_has_five(v) for _k, v in w['fields']) or
+                                       any(_has_five(t) for _r, ps in w['persons'] for p in ps for part in p for t in part)),
+    }
+
+
+def _has_five(s):
+    return any(c in FIVE for c in s)
+
+
+def _explained(case, g, w):
+    """Every difference between the entry read back (g) and the entry wanted (w) is one the recorded findings that APPLY to w
+    predict -- and nothing else differs:
+      other role   -> the role is missing from the persons; a text field of its name has appeared (when it had persons)
+      empty role   -> the role is missing from the persons
+      YAML type    -> the fields called type are missing; the entry type may be the value of one of them
+      five chars   -> a value / a person containing one of # % & _ ~ differs (BibTeX on the way)"""
+    ft = _features(case, w)
+    if ft['ytype']:
+        types = {w['orig_type']} | set(ft['ytype']) | {_lower_py(v) for v in ft['ytype']}
+        # (a value with one of the five characters has been re-escaped by a BibTeX step before it became the type)
+        escaped = 'bibtex' in case['chain'] and any(_has_five(v) for v in ft['ytype'])
+        if (g['orig_type'] not in types and not escaped) or g['type'] != _lower_py(g['orig_type']):
+            return False
+    elif g['orig_type'] != w['orig_type'] or g['type'] != w['type']:
+        return False
+    gone = set(ft['other']) | set(ft['empty'])
+    wp = [r for r in w['persons'] if _lower_py(r[0]) not in gone]
+    if [(r, len(ps)) for r, ps in g['persons']] != [(r, len(ps)) for r, ps in wp]:
+        return False
+    for (_r, gps), (_r2, wps) in zip(g['persons'], wp):
+        for gp, wpers in zip(gps, wps):
+            if gp != wpers and not (ft['five'] and any(_has_five(t) for part in wpers for t in part)):
+                return False
+    # every format writes the persons of such a role under its name, and every reader takes that for a field
+    gnames = {_lower_py(k) for k, _v in g['fields']}
+    if any(_lower_py(r) not in gnames for r, ps in w['persons'] if ps and _lower_py(r) in ft['other']):
+        return False
+    gf = [f for f in g['fields'] if _lower_py(f[0]) not in ft['other']]
+    wf = [f for f in w['fields'] if not (ft['ytype'] and _lower_py(f[0]) == 'type')]
+    if [k for k, _ in gf] != [k for k, _ in wf]:
+        return False
+    for (_k, gv), (_k2, wv) in zip(gf, wf):
+        if gv != wv and not (ft['five'] and _has_five(wv)):
+            return False
+    return True
+
+
+def _entry_matcher(feature):
+    def match(case, io, text):
+        gw = _failing_entry(case, io, text)
+        if not gw:
+            return False
+        g, w = gw
+        return bool(_features(case, w)[feature]) and _explained(case, g, w)
+    return match
+
+
+match_other_role = _entry_matcher('other')
+match_empty_role = _entry_matcher('empty')
+match_yaml_type = _entry_matcher('ytype')
+_match_five_entry = _entry_matcher('five')
+
+
+def match_five(case, io, text):
+    """BibTeX: a value / name / preamble containing one of # % & _ ~ comes back re-escaped"""
+    if case.get('op') != 'convert' or 'bibtex' not in case['chain'] or not isinstance(io, dict) or 'db' not in io:
+        return False
+    if text.startswith(_convert_tag(case) + ': preamble '):
+        # the other text of a preamble failure, and a preamble lost to BibTeXML, never start like this with a five-free preamble
+        return _has_five(''.join(case['db']['preamble'])) and 'bibtexml' not in case['chain']
+    return _match_five_entry(case, io, text)
+
+
+KNOWN_MATCHERS = {
+    'C02-role-not-author-editor': match_other_role,
+    'C02-empty-role': match_empty_role,
+    'C02-yaml-type-field': match_yaml_type,
+    'C02-five-characters': match_five,
+}
+
+
 def buckets(case, io):
     b = [case['op']]
     if case['op'] == 'convert':
         b.append('chain=' + '>'.join(case['chain']))
         b.append('preserve' if case['preserve_case'] else 'lower')
-        if case.get('via_files'):
-            b.append('via-convert()')
+        tr = _transport(case)
+        if tr != 'string':
+            b.append('transport=' + tr + ('/' + case['encoding'] if tr == 'bytes' else ''))
         b.append(case.get('stream', 'generated'))
     if isinstance(io, dict) and 'error' in io:
         b.append('error:' + io['error'])
@@ -493,8 +749,15 @@ def valid_case(case):
                 for _r, ps in e['persons']:
                     if any(len(p) != 5 for p in ps):
                         return False
-            if case['op'] == 'convert' and (not all(f in FORMATS for f in case['chain'])):
-                return False
+            if case['op'] == 'convert':
+                if not all(f in FORMATS for f in case['chain']):
+                    return False
+                if case.get('transport', 'string') not in ('string', 'bytes', 'fileobj', 'memfile'):
+                    return False
+                if case.get('transport') == 'bytes' and case.get('encoding') not in ENCODINGS:
+                    return False
+                if case.get('via_files') not in (None, True) or not isinstance(case['preserve_case'], bool):
+                    return False
         if case['op'] == 'personfmt' and len(case['person']) != 5:
             return False
         if case['op'] in ('yamlread', 'xmlread'):
@@ -513,11 +776,25 @@ TOKENS = {'Cap': 'Smith', 'low': 'von', 'braced': '{Mc B}', 'spU': "{\\'E}cole",
 CLASSES = list(TOKENS)
 # values of the claimed domain: braces, quotes, backslash, @ , = digits (no # % & _ ~, white-space-normalised)
 VALUES = ['', 'word', 'two words', '{Braced} text', 'a {"} b', 'q "x" q', '1993', '{\\"o}', 'a, b = c @ d', 'back\\slash',
-          '(paren) [x]', 'x < y > z', "it's", '– €', '{{nested} {deep}}', '"', '\\', 'a=b,c', '@k{x}', '{a "b" c}']
+          '(paren) [x]', 'x < y > z', "it's", '– €', '{{nested} {deep}}', '"', '\\', 'a=b,c', '@k{x}', '{a "b" c}',
+          '{a{b{c{d}e}f}g} {{{{{{deep}}}}}}']
 # outside the claimed domain (correspondence only)
 VALUES_OUT = ['100% x', 'a_b', 'R&D', 'x~y', '#1', ' lead', 'trail ', 'two  spaces', 'a\nb', 'tab\there', '{open', 'close}', '}{',
-              '{}}{}', 'a\x0bb', 'a\xa0b', '%', 'a%b%c', '~', 'x~ y', '~~']
+              '{}}{}', 'a\x0bb', 'a\xa0b', '%', 'a%b%c', '~', 'x~ y', '~~', '{' * 101 + 'x' + '}' * 101, '{' * 100 + 'x' + '}' * 100]
+# the five characters the BibTeX writer re-escapes (white-space-normalised, balanced: inside the stated quantifier but for them)
+VALUES_FIVE = ['100% x', 'a_b', 'R&D', 'x~y', '#1', '%', 'a%b%c', '~', 'x~ y', '~~', 'snake_case {and} #2', '50% & more']
+# in the domain of YAML / BibTeXML only (not white-space-normalised)
+VALUES_TREE = [' lead', 'trail ', 'two  spaces', 'a\nb', 'tab\there', '\n', ' ', 'line one\nline two\n', ': colon', '- dash', '# hash',
+               "'single'", '"double"', 'key: value', '{unbalanced', '}', '[list]', '&anchor', '*alias', '!tag', '|', '>', '%TAG', '@at',
+               '`tick`', 'null', 'true', '1993', '1e3', '0x1F', '~', 'yes', '2001-01-02', 'a\xa0b', '\u2028', 'é \u4e2d \U0001F600']
 TYPES = ['article', 'Book', 'MISC', 'inProceedings']
+OTHER_ROLES = ['translator', 'Translator', 'bookauthor', 'authors', 'EDITORA']
+TYPE_FIELD_VALUES = ['Research', 'PhD', 'techreport', 'Master']
+# non-ASCII identifiers (YAML / BibTeXML / lower()); BibTeXML tags take the Latin-1 letters only
+# keys only YAML / BibTeXML can spell
+KEYS_TREE = ['sp ace', 'com,ma', ' lead', 'a: b', '#k', '', 'close}', 'Tab\there']
+KEYS_U = ['\xc4B', '\xe4b2', 'Stra\xdfe', '\u01c5x', '\xc9cole:1', '\xd1', 'K\xdcRZEL', '\u0394elta', '\u0416uk', '\u1e9e', '\u01c4', 'ma\xf1ana']
+IDENTS_U = ['\xc4rt', 'Stra\xdfe', '\xc9tude', 'NI\xd1O', '\xfcber', 'Na\xefve']
 FIELD_NAMES = ['title', 'Year', 'JOURNAL', 'note', 'month', 'x-field', 'a.b', 'url', 'crossref']
 KEYS = ['key1', 'Knuth:1984', 'a-b', 'K', 'x/y', 'weird{key', 'k)', 'KEY2', 'k"q', 'k=v', 'k#h', 'k@x', 'k_u']
 ROLES = ['author', 'Editor', 'AUTHOR', 'editor']
@@ -658,13 +935,85 @@ def gen_cases(tier, rng, info):
         chain = [rng.choice(FORMATS) for _ in range(rng.choice([1, 2, 3, 3]))]
         preserve = rng.random() < 0.5 or len(chain) < 2
         c = {'op': 'convert', 'db': j, 'chain': chain, 'preserve_case': preserve, 'stream': 'direct'}
-        if i % 10 == 0:
-            c['via_files'] = True
+        _pick_transport(c, i, rng)
         cases.append(c)
         if i % 3 == 0:
             cases.append({'op': 'bibwrite', 'db': j})
         if i % 4 == 0:
             cases.append({'op': 'lowerdb', 'db': j})
+    # --- inside the stated quantifier, outside the claimed domain: the four recorded findings (oracle ON, matchers)
+    nfind = 60 if not thorough else 800
+    for i in range(nfind):
+        # (1) persons under a role other than author / editor
+        j = _random_db(rng, psample, VALUES, out=False, min_entries=1)
+        for e in rng.sample(j['entries'], rng.randint(1, len(j['entries']))):
+            used = {r.lower() for r, _ in e['persons']} | {k.lower() for k, _ in e['fields']}
+            for role in rng.sample(OTHER_ROLES, rng.randint(1, 2)):
+                if role.lower() not in used:
+                    used.add(role.lower())
+                    e['persons'].insert(rng.randint(0, len(e['persons'])), [role, [rng.choice(psample) for _ in range(rng.randint(1, 2))]])
+        chain = [rng.choice(FORMATS) for _ in range(rng.choice([1, 1, 2, 3]))]
+        cases.append({'op': 'convert', 'db': j, 'chain': chain, 'preserve_case': rng.random() < 0.6 or len(chain) < 2, 'stream': 'finding:other-role'})
+        if i % 4 == 0:
+            cases.append({'op': 'bibwrite', 'db': j})
+        if i % 2 == 0:
+            cases.append({'op': 'lowerdb', 'db': j})      # lower(), pickle and repr / eval keep any role
+        # (2) a role with an empty person list
+        j = _random_db(rng, psample, VALUES, out=False, min_entries=1)
+        for e in rng.sample(j['entries'], rng.randint(1, len(j['entries']))):
+            used = {r.lower() for r, _ in e['persons']}
+            role = rng.choice(ROLES)
+            if role.lower() not in used:
+                e['persons'].insert(rng.randint(0, len(e['persons'])), [role, []])
+        chain = [rng.choice(FORMATS) for _ in range(rng.choice([1, 1, 2, 3]))]
+        cases.append({'op': 'convert', 'db': j, 'chain': chain, 'preserve_case': rng.random() < 0.6 or len(chain) < 2, 'stream': 'finding:empty-role'})
+        if i % 2 == 0:
+            cases.append({'op': 'lowerdb', 'db': j})      # lower(), pickle and repr / eval keep an empty role
+        # (3) YAML: a field called type.  Its value becomes the entry type: a NAME, so that later formats can carry it
+        j = _random_db(rng, psample, VALUES, out=False, min_entries=1)
+        for e in rng.sample(j['entries'], rng.randint(1, len(j['entries']))):
+            e['fields'].insert(rng.randint(0, len(e['fields'])), [rng.choice(['type', 'type', 'Type', 'TYPE']), rng.choice(TYPE_FIELD_VALUES)])
+        chain = [rng.choice(FORMATS) for _ in range(rng.choice([1, 2, 2, 3]))]
+        if 'yaml' not in chain:
+            chain[rng.randrange(len(chain))] = 'yaml'
+        cases.append({'op': 'convert', 'db': j, 'chain': chain, 'preserve_case': rng.random() < 0.6 or len(chain) < 2, 'stream': 'finding:yaml-type'})
+        # (4) BibTeX: the five re-escaped characters in values, names, the preamble
+        j = _random_db(rng, psample, VALUES + VALUES_FIVE * 3, out=False, min_entries=1)
+        if not any(_has_five(s) for s in _strings(j)):
+            j['entries'][0]['fields'].append(['abstract', rng.choice(VALUES_FIVE)])
+        if rng.random() < 0.2:
+            j['preamble'] = [rng.choice(['50% off', 'a_b', '\\def\\x#1{y}', 'R&D ~'])]
+        if rng.random() < 0.2 and j['entries'][0]['persons']:
+            j['entries'][0]['persons'][0][1].append([[], [], [], [rng.choice(['O_Neil', 'R&D', 'No#1'])], []])
+        chain = [rng.choice(FORMATS) for _ in range(rng.choice([1, 1, 2, 3]))]
+        cases.append({'op': 'convert', 'db': j, 'chain': chain, 'preserve_case': rng.random() < 0.6 or len(chain) < 2, 'stream': 'finding:five-characters'})
+        if i % 4 == 0:
+            cases.append({'op': 'bibwrite', 'db': j})
+    # --- values only YAML / BibTeXML can carry (not white-space-normalised, YAML-significant spellings): chains of these two
+    for i in range(250 if not thorough else 3000):
+        j = _random_db(rng, psample, VALUES + VALUES_TREE * 3, out=False, min_entries=1, tree_keys=True)
+        chain = [rng.choice(('yaml', 'bibtexml')) for _ in range(rng.choice([1, 1, 2, 3]))]
+        c = {'op': 'convert', 'db': j, 'chain': chain, 'preserve_case': rng.random() < 0.6 or len(chain) < 2, 'stream': 'tree-values'}
+        _pick_transport(c, i, rng)
+        cases.append(c)
+    # --- sizes beyond toys: 5-10 entries, values of 100-400 characters (PyYAML folds lines, the XML writer indents)
+    for i in range(60 if not thorough else 400):
+        j = _big_db(rng, psample)
+        chain = [rng.choice(FORMATS) for _ in range(rng.choice([1, 2, 3]))]
+        c = {'op': 'convert', 'db': j, 'chain': chain, 'preserve_case': rng.random() < 0.6 or len(chain) < 2, 'stream': 'big'}
+        _pick_transport(c, i, rng)
+        cases.append(c)
+        if i % 4 == 0:
+            cases.append({'op': 'lowerdb', 'db': j})
+            cases.append({'op': 'bibwrite', 'db': j})
+    # --- non-ASCII identifiers (str.lower, not an ASCII table): YAML / BibTeXML chains and lower()
+    for i in range(200 if not thorough else 2000):
+        j = _random_db(rng, psample, VALUES, out=False, min_entries=1, unicode_idents=True)
+        chain = [rng.choice(('yaml', 'bibtexml', 'yaml')) for _ in range(rng.choice([1, 2, 2, 3]))]
+        c = {'op': 'convert', 'db': j, 'chain': chain, 'preserve_case': rng.random() < 0.4 or len(chain) < 2, 'stream': 'unicode-identifiers'}
+        _pick_transport(c, i, rng)
+        cases.append(c)
+        cases.append({'op': 'lowerdb', 'db': j})
     # --- outside the claimed domain: only the correspondence applies
     for i in range(400 if not thorough else 5000):
         j = _random_db(rng, persons, VALUES + VALUES_OUT * 2, out=True)
@@ -681,15 +1030,63 @@ def gen_cases(tier, rng, info):
     return cases
 
 
-def _random_db(rng, persons, values, out):
+ENCODINGS = ['UTF-8', 'latin-1', 'UTF-16', 'cp1252', 'ascii']
+
+
+def _pick_transport(c, i, rng):
+    """every 10th case through convert() on real files, then to_bytes / parse_bytes (an encoding every string of the database
+    can be encoded in), file objects with the format guessed from their name, in-memory file objects"""
+    k = i % 20
+    if k in (0, 10):
+        c['via_files'] = True
+    elif k in (3, 13):
+        c['transport'] = 'bytes'
+        ok = [e for e in ENCODINGS if _encodable(c['db'], e)]
+        c['encoding'] = rng.choice(ok)
+    elif k == 6:
+        c['transport'] = 'fileobj'
+    elif k in (8, 18):
+        c['transport'] = 'memfile'
+
+
+def _long_value(rng, values):
+    parts = []
+    n = rng.randint(100, 400)
+    while sum(len(p) + 1 for p in parts) < n:
+        v = rng.choice(values)
+        if v:
+            parts.append(v)
+    return ' '.join(parts)
+
+
+def _big_db(rng, persons):
     entries = []
     used = set()
-    for _ in range(rng.randint(0, 3)):
-        key = rng.choice(KEYS)
+    vals = [v for v in VALUES if v == ' '.join(v.split(' ')) and v.strip(' ') == v]
+    for n in range(rng.randint(5, 10)):
+        key = rng.choice(KEYS) + (str(n) if rng.random() < 0.7 else '')
+        if key.lower() in used:
+            key = 'entry%d' % n
+        used.add(key.lower())
+        names = rng.sample(FIELD_NAMES, rng.randint(2, 6))
+        fields = [(nm, _long_value(rng, vals) if rng.random() < 0.6 else rng.choice(VALUES)) for nm in names]
+        roles = []
+        for role in rng.sample(['author', 'Editor'], rng.randint(0, 2)):
+            roles.append([role, [rng.choice(persons) for _ in range(rng.randint(1, 8))]])
+        entries.append(_entry(key, rng.choice(TYPES), fields, roles))
+    return _db(entries, rng.choice(PREAMBLES + [[_long_value(rng, vals)]]))
+
+
+def _random_db(rng, persons, values, out, min_entries=0, unicode_idents=False, tree_keys=False):
+    entries = []
+    used = set()
+    for _ in range(rng.randint(min_entries, 3)):
+        key = rng.choice(KEYS_U if unicode_idents and rng.random() < 0.7 else KEYS_TREE if tree_keys and rng.random() < 0.4 else KEYS)
         if key.lower() in used:
             continue
         used.add(key.lower())
-        names = rng.sample(FIELD_NAMES + ([rng.choice(['type', 'Type']), 'author2'] if out else []), rng.randint(0, 3))
+        fnames = FIELD_NAMES + ([rng.choice(['type', 'Type']), 'author2'] if out else []) + (IDENTS_U if unicode_idents else [])
+        names = rng.sample(fnames, rng.randint(0, 3))
         fields = [(n, rng.choice(values)) for n in names]
         roles = []
         if rng.random() < 0.6:
@@ -698,7 +1095,9 @@ def _random_db(rng, persons, values, out):
                 if out and rng.random() < 0.1:
                     ps = []
                 roles.append([role, ps])
-        entries.append(_entry(key, rng.choice(TYPES), fields, roles))
+        entries.append(_entry(key, rng.choice(TYPES + IDENTS_U if unicode_idents else TYPES), fields, roles))
+    if not entries and min_entries:
+        entries.append(_entry('only', 'misc', [('title', rng.choice(values))], []))
     pre = rng.choice(PREAMBLES) if not out else rng.choice(PREAMBLES + [['100% x'], [' a  b ']])
     return _db(entries, pre)
 
@@ -746,18 +1145,27 @@ LEVEL_TEXT = ('Machine-checked proofs (Lean 4) about function-by-function models
               'itself produces (C02_wfperson_of_parse) - the written name and str() are read back as the same person, and so are the five part '
               'texts; (2) for EVERY database in the explicit decidable domain WFDb the BibTeX writer\'s text is read back by the .bib reader model of '
               'C01/C10 without error as the same ordered database (staged: field, entry = a C01 rendering + its denotation, database); (3) for YAML '
-              'and BibTeXML, pybtex\'s own conversion logic is the identity given a lossless serialiser; (4) hence any chain of formats preserves the '
-              'entries, and lower-casing changes only the letter case of keys, types, field names and roles. The models are tied to the code by the '
-              'differential check, which also runs pickle and eval(repr()) for real.')
+              'and BibTeXML, pybtex\'s own conversion logic is the identity given a lossless serialiser (one is constructed: C02_serial_witness); (4) hence any '
+              'chain of formats preserves the entries, and lower-casing (str.lower(), Unicode table) changes only the letter case of keys, types, field names '
+              'and roles; (5) the domain of the STATED quantifier (WFDbQ) minus four explicitly named classes lies in these domains (C02_quantifier_partial); on '
+              'each of the four classes the round trip FAILS, with a kernel-evaluated counterexample and a recorded finding. The models are tied to the code '
+              'by the differential check, which also runs pickle and eval(repr()) for real.')
 LEVEL_NOTE = ('Modelled and proved: pybtex\'s writer / reader / lower / convert logic. ASSUMED (hypotheses of the theorems, exercised by the correspondence '
               'on every case, never proved): PyYAML and xml.* are lossless on the trees pybtex hands them (load(dump t) = t), latexcodec changes only '
-              '# % & _ ~ (verified on every single code point by a probe), pickle. Not modelled: Python repr/eval and pickle (oracle only); the white space '
-              '_PrettyXMLWriter writes for indentation (abstracted to one newline, the reader strips it); str() of non-string YAML scalars is supplied by '
-              'the harness. Domain (explicit decidable predicates in Spec/BibWrite.lean): values balanced with nesting <= 100, white-space-normalised '
-              '(for person fields also inside braces) and free of # % & _ ~; NAME identifiers, keys scannable in braces, no duplicates up to case; '
-              'roles non-empty; persons WFPerson (what Person(name) yields, no token ending in a backslash, a last name present) whose written name '
-              'contains no brace-level-0 " and "; YAML: no field called "type"; BibTeXML: the preamble is not carried. The model follows the code AFTER '
-              'the proposed repairs C02-1 (empty First part kept: "Last, Jr," / "World Bank,"), C02-2 (BibTeXML role detection case-insensitive), '
-              'C02-3 (BibliographyData.__repr__ no longer corrupted by keys occurring earlier in the text); Model/Names.lean Person.toStr is the pre-repair '
-              '__str__ (C04 owns it) - the theorems use BibWrite.personStr. Trusted: Lean kernel; axioms propext/Classical.choice/Quot.sound; the tie '
-              'between models and code is differential testing.')
+              '# % & _ ~ (verified on every single code point by a probe), pickle, and repr / eval of Python strings / lists / dictionaries (the two __repr__ and the '
+              'constructors are modelled as constructor calls: C02_repr_logic, compared with eval(repr(db)) of the real code on every lowerdb case). Not modelled: pickle (oracle only); the '
+              'transports (to_string / to_bytes / to_file / convert() on files: exercised, the model is transport-independent); the white space '
+              '_PrettyXMLWriter writes in front of file / entry / entry-type children (one newline in the model, never read; role and person elements carry the '
+              'exact indentation); str() of non-string YAML scalars is supplied by the harness, str() of lists / mappings (what the reader makes of a role it does '
+              'not know) is modelled (CPython >= 3.12 OrderedDict repr). Domain (explicit decidable predicates in Spec/BibWrite.lean): values balanced with nesting '
+              '<= 100, white-space-normalised (for person fields also inside braces) and free of # % & _ ~; NAME identifiers, ASCII keys scannable in braces, no '
+              'duplicates up to case; roles author / editor (any case), non-empty; persons WFPerson (what Person(name) yields, no token ending in a backslash, a '
+              'last name present) whose written name contains no brace-level-0 " and "; YAML / BibTeXML: any identifiers free of U+0130 / U+03A3, YAML: no field '
+              'called "type"; BibTeXML: the preamble is not carried. NOT in the claimed domain although inside the stated quantifier: the four recorded findings '
+              '(known_findings.json: C02-role-not-author-editor, C02-empty-role, C02-yaml-type-field, C02-five-characters); also excluded, unstated by the '
+              'property: a text FIELD called author / editor (read back as persons), nesting > 100, reserved entry types, a name list with a brace-level-0 " and " '
+              'inside one name. The model follows the code AFTER the proposed repairs C02-1 (empty First part kept: "Last, Jr," / "World Bank,"), C02-2 '
+              '(BibTeXML role detection case-insensitive), C02-3 (BibliographyData.__repr__ no longer corrupted by keys occurring earlier in the text), C02-4 '
+              '(Entry.__repr__ shows the type as written; harness only, repr is not modelled); Model/Names.lean Person.toStr is the pre-repair __str__ (C04 owns '
+              'it) - the theorems use BibWrite.personStr. Trusted: Lean kernel; axioms propext/Classical.choice/Quot.sound; the tie between models and code is '
+              'differential testing.')
